@@ -5,6 +5,7 @@ import SLModel.Lemmas.AggsOrder
 import SLModel.Lemmas.AggsStats
 import SLModel.Lemmas.AggsBuckets
 import SLModel.Lemmas.AggsTree
+import SLModel.Lemmas.AggsTopK
 /-!
 # C12 — aggregations are exact and independent of segmentation
 
@@ -24,13 +25,13 @@ theorem segmentation_independent (a : Agg φ κ) (s₀ : List (Doc φ κ)) (rest
 
 What is proved is `segmentation_independent_partial`: the same equation under the decidable
 hypothesis `a.safe` on the *request* — no terms `size`, terms/histogram/date_histogram
-`min_doc_count ≤ 1`, no rare_terms node, no top_hits node, composite histogram sources over f64
-columns — i.e. exactly the requests on which `TermsCollector::finish` /
+`min_doc_count ≤ 1`, no rare_terms node, top_hits only with `from = 0`, composite histogram
+sources over f64 columns, no date_histogram that combines a calendar interval, a non-zero offset
+and bounds — i.e. exactly the requests on which `TermsCollector::finish` /
 `RareTermsCollector::finish` / `HistogramCollector::finish` / `DateHistogramCollector::finish`
 cannot drop, per segment, something the merged counts would keep, and on which the composite
-collector reads the column.  (top_hits is modelled and differentially checked; with `from = 0`
-it is exact, but the top-k merge lemma is not proved here, so the node is outside `safe`; with
-`from > 0` it is wrong: `top_hits_from_per_segment`.)  Tie to the code: `Drv/C12` runs `run` and `Spec.agg`; the harness
+collector reads the column.  (top_hits with `from = 0` is exact by the top-k merge lemma
+`topN_merge`; with `from > 0` the code is wrong: `top_hits_from_per_segment`.)  Tie to the code: `Drv/C12` runs `run` and `Spec.agg`; the harness
 compares `run` with the implementation on every segment layout and `Spec.agg` with an
 independent Rust computation.
 -/
@@ -85,7 +86,11 @@ theorem collect_append (h : StrictTotal (KOrd.lt (κ := κ))) :
     simp only [collect, merge, List.flatMap_append, ← vals_append]
   | .ranks f m ts, _, xs, ys => by
     simp only [collect, merge, List.flatMap_append, ← vals_append]
-  | .topHits _ _ _, hs, _, _ => by simp [Agg.safe] at hs
+  | .topHits size fromN sort, hs, xs, ys => by
+    have h0 : fromN = 0 := by simpa [Agg.safe] using hs
+    subst h0
+    simp only [collect, merge, hitsWindow_zero, List.map_append, List.length_append,
+      topN_merge (hitLt_strictTotal _)]
   | .bucket b subs, hs, xs, ys => by
     simp only [Agg.safe, Bool.and_eq_true] at hs
     obtain ⟨hb, hsub⟩ := hs
@@ -120,7 +125,10 @@ theorem finalize_collect (h : StrictTotal (KOrd.lt (κ := κ))) :
   | .cardNum f m, _, docs => by simp only [collect, finalize, Spec.agg]
   | .percentiles f m ps, _, docs => by simp only [collect, finalize, Spec.agg]
   | .ranks f m ts, _, docs => by simp only [collect, finalize, Spec.agg]
-  | .topHits _ _ _, hs, _ => by simp [Agg.safe] at hs
+  | .topHits size fromN sort, hs, docs => by
+    have h0 : fromN = 0 := by simpa [Agg.safe] using hs
+    subst h0
+    simp only [collect, finalize, Spec.agg, hitsWindow_zero, topN, List.drop_zero]
   | .bucket b subs, hs, docs => by
     simp only [Agg.safe, Bool.and_eq_true] at hs
     obtain ⟨hb, hsub⟩ := hs
@@ -138,11 +146,11 @@ theorem finalize_collect (h : StrictTotal (KOrd.lt (κ := κ))) :
         rfl
       | rare _ _ _ => simp [BSpec.safe] at hb
       | hist _ _ _ _ _ _ _ => rfl
-      | dhist _ _ _ _ _ _ _ => rfl
+      | dhist _ _ _ _ _ _ _ _ => rfl
       | range _ _ _ => simp only [BSpec.minOf, filter_keepMin_zero]; rfl
       | filter _ => simp only [BSpec.minOf, filter_keepMin_zero]; rfl
       | composite _ _ _ => simp only [BSpec.minOf, filter_keepMin_zero]; rfl
-    simp only [collect, finalize, Spec.agg, BSpec.ideal_of_safe hb]
+    simp only [collect, finalize, Spec.agg, rawBuckets_ideal hb]
     rw [hch, specPost_map, hpost]
     rfl
 theorem finalizeList_collectList (h : StrictTotal (KOrd.lt (κ := κ))) :
@@ -216,7 +224,9 @@ theorem merge_comm (h : StrictTotal (KOrd.lt (κ := κ))) :
   | .ranks f m ts, _, xs, ys => by
     simp only [collect, merge]
     rw [sortBy_perm ratLt_strictTotal List.perm_append_comm]
-  | .topHits _ _ _, hs, _, _ => by simp [Agg.safe] at hs
+  | .topHits size fromN sort, _, xs, ys => by
+    simp only [collect, merge, hitsWindow, Nat.add_comm xs.length]
+    rw [sortBy_perm (hitLt_strictTotal _) List.perm_append_comm]
   | .bucket b subs, hs, xs, ys => by
     simp only [Agg.safe, Bool.and_eq_true] at hs
     obtain ⟨hb, hsub⟩ := hs
@@ -313,9 +323,22 @@ theorem composite_histogram_i64_empty :
 /-- date_histogram (calendar day) `min_doc_count = 2`: two values of the same day in different
 segments -/
 theorem date_histogram_min_doc_count_per_segment :
-    let a : Agg Unit Nat := .bucket (.dhist () (.calendar .day) 0 2 none none none) .nil
+    let a : Agg Unit Nat := .bucket (.dhist () (.calendar .day) 0 2 none none none false) .nil
     (run a [[ndoc 0 [3600000]], [ndoc 1 [7200000]]]).map counts = some [] ∧
     counts (Spec.agg a [ndoc 0 [3600000], ndoc 1 [7200000]]) = [(Key.num 0, 2)] := by
+  decide +kernel
+
+/-- date_histogram, calendar month, offset 1 h, extended bounds 1970-01-01 … 1970-02-10, no
+documents: the bounds fill of the code starts at 1969-12-01T01:00 and then steps to
+1970-01-01T00:00 and 1970-02-01T00:00 (`add_calendar` drops the time of day, i.e. the offset);
+the reference keeps the offset: 1970-01-01T01:00, 1970-02-01T01:00.  One segment suffices. -/
+theorem date_histogram_fill_drops_offset :
+    let a : Agg Unit Nat :=
+      .bucket (.dhist () (.calendar .month) 3600000 0 (some (0, 86400000 * 40)) none none false) .nil
+    (run a [[]]).map counts =
+      some [(Key.num (-2674800000), 0), (Key.num 0, 0), (Key.num 2678400000, 0)] ∧
+    counts (Spec.agg a []) =
+      [(Key.num (-2674800000), 0), (Key.num 3600000, 0), (Key.num 2682000000, 0)] := by
   decide +kernel
 
 def hitIds {κ : Type} : Node κ → List Nat
@@ -345,6 +368,14 @@ example :
 
 example : (Agg.bucket (BSpec.terms () (some 3) 1 none) Aggs.nil : Agg Unit Nat).safe = false := by
   decide
+
+/-- top_hits with `from = 0` is inside the theorem: two segments, ascending by value -/
+example :
+    let a : Agg Unit Nat := .topHits 2 0 [((), false)]
+    a.safe = true ∧
+    (run a [[ndoc 0 [5], ndoc 1 [1]], [ndoc 2 [3]]]).map hitIds = some [1, 2] ∧
+    hitIds (Spec.agg a [ndoc 0 [5], ndoc 1 [1], ndoc 2 [3]]) = [1, 2] := by
+  decide +kernel
 
 /-- the hypothesis of the theorems is satisfiable for the driver's atoms -/
 example : StrictTotal (KOrd.lt (κ := String)) := stringLt_strictTotal
